@@ -10,6 +10,7 @@ fresh server per explored history, replayed from the start).  A model client fol
 
   (a) client vs L  -> kind "client_out_of_sync"   (the diff protocol lost something)
   (b) L vs M       -> kind "restart_differs"      (what the client sees is not what save writes)
+  (c) L vs L recomputed after Kconfig._invalidate_all() -> kind "stale_server_state" (a request left memoised values behind)
   together they imply the statement's client-vs-M equality; separating them names the mechanism.
 Rule for both: equal on every key of the right-hand side; a key only the left-hand side holds must be invisible in both.
 Protocol 1 (no visibility channel) is compared on options visible in the reference, `defaults` only in protocol 3.
@@ -38,8 +39,9 @@ RULE = (
     "server configuration, client model) reached by a reply that carried a non-empty difference or an error."
 )
 ASSUMPTIONS = [
-    "a client speaks one protocol version per session; (server default version, request version) pairs explored: (3,3) (3,2) "
-    "(3,1) (2,2) (1,1); with differing versions the channels both sides know (min of the two) are compared",
+    "a client speaks one protocol version per session; (server default version, request version) pairs explored: (3,3) (3,1) "
+    "to depth 3/4, (1,1) to depth 2/4, (3,2) (2,2) to depth 2/3 (quick/thorough); with differing versions the channels both "
+    "sides know (min of the two) are compared",
     "the reference state of a restarted server is taken from a fresh protocol-3 server (superset of the channels)",
     "requests that make the server raise (C15's subject, e.g. a JSON float for a hex option) are not in the alphabet; "
     "a server death is nevertheless reported as kind server_died",
@@ -354,11 +356,19 @@ def req_line(cv: int, body: dict) -> str:
     return json.dumps(d)
 
 
+def depth_of(tier: str, dv: int, cv: int) -> int:
+    """depth 3 (quick) / 4 (thorough) for the protocol pairs a current client meets -- (3,3), (3,1) and the protocol-1
+    server end to end in thorough; the remaining pairs one level less"""
+    if tier == "quick":
+        return 3 if (dv, cv) in ((3, 3), (3, 1)) else 2
+    return 4 if (dv, cv) in ((3, 3), (3, 1), (1, 1)) else 3
+
+
 def items(tier: str, seed: int):
-    depth = 3 if tier == "quick" else 4
     out = []
     for name, t in trees().items():
         for dv, cv in PAIRS:
+            depth = depth_of(tier, dv, cv)
             alpha = [a for a in t["alphabet"] if cv >= 3 or "reset" not in a or a["reset"] in (["all"], ["NOPE", "no-such-menu-1"])]
             for first in range(len(alpha)):
                 out.append(
@@ -449,6 +459,12 @@ def compare(kind: str, left: Dict[str, dict], right: Dict[str, dict], ev: int, l
 # --------------------------------------------------------------------------------------------------
 
 
+# per worker process: results that depend only on (tree, saved file) / (tree, server-side configuration) are shared by all
+# items the worker executes (the values are exactly what a recomputation would give; only time is saved)
+_FRESH: Dict[tuple, Any] = {}
+_RESTART: Dict[tuple, Dict[tuple, str]] = {}
+
+
 class ServerDied(Exception):
     def __init__(self, run: server.Run):
         super().__init__(str(run.exc))
@@ -496,9 +512,8 @@ class Explorer:
         self.menu_ids: Optional[List[str]] = None
         self.types: Dict[str, str] = {}
         self.kinds: Dict[str, str] = {}
-        self._fresh: Dict[str, Any] = {}
+        self.tkey = common.h64(sorted(self.files.items()))
         self._mm: Dict[tuple, Dict[tuple, str]] = {}
-        self._restart: Dict[int, Dict[tuple, str]] = {}
 
     # -- requests
     def resolve(self, body: dict) -> str:
@@ -558,7 +573,7 @@ class Explorer:
                 s._sdkconfig_value,
                 s._loaded_as_default,
                 bool(s._has_active_indirect_set),
-                bool(getattr(s, "_default_value_injected", False)),
+                repr(s.defaults) if getattr(s, "_default_value_injected", False) else 0,  # load may replace the defaults
                 bool(s._was_set),
                 repr(getattr(s, "_old_val", None)),
                 os.path.basename(s._user_source) if isinstance(getattr(s, "_user_source", None), str) else None,
@@ -574,26 +589,25 @@ class Explorer:
     # -- oracle
     def fresh_state(self, text: str) -> Any:
         """initial message of a fresh protocol-3 server started on a file with this content (cached by content)"""
-        got = self._fresh.get(text)
+        got = _FRESH.get((self.tkey, text))
         if got is None:
             run = server.run(self.files, [], sdkconfig=text, default_version=3, want_files=False)
-            self.r.count("fresh_servers")
             if run.exc is not None or len(run.lines) != 1:
                 got = ("died", run.exc, run.lines)
             else:
                 obj, why = server.parse_reply(run.lines[0])
                 got = ("ok", obj) if obj is not None else ("bad", why, run.lines)
-            if len(self._fresh) > 20000:
-                self._fresh.clear()
-            self._fresh[text] = got
+            if len(_FRESH) > 20000:
+                _FRESH.clear()
+            _FRESH[(self.tkey, text)] = got
         return got
 
     def restart_mismatches(self, h: tuple, st: State, live: dict) -> Dict[tuple, str]:
         """(b): append a save to a twin of the history, start a fresh server on the written file, compare with the live state.
-        Depends only on the server-side configuration, so it is executed once per distinct server state of this sub-tree."""
+        Depends only on the server-side configuration (server_key: every persistent field), so it is executed once per
+        distinct server-side configuration a worker meets."""
         out: Dict[tuple, str] = {}
         twin = server.run(self.files, list(h) + [req_line(3, {"save": "$D/twin"})], sdkconfig=self.item["sdk0"], default_version=self.dv, aux=self.aux)
-        self.r.count("twin_runs")
         if twin.exc is not None or len(twin.lines) != len(h) + 2:
             out[("twin_save", "-", "-", "server_died_on_save")] = f"appending a save to the history: {twin.exc}, {len(twin.lines)} lines"
         elif twin.lines[: len(h) + 1] != st.run.lines:
@@ -620,16 +634,27 @@ class Explorer:
         out: Dict[tuple, str] = {}
         live = server.full_state(st.run.kconfig)
         out.update(compare("client_out_of_sync", st.client, live, self.ev, True))
-        skey = common.h64(self.server_key(st))
-        restart = self._restart.get(skey)
+        skey = (self.tkey, common.h64(self.server_key(st)))
+        restart = _RESTART.get(skey)
         if restart is None:
             restart = self.restart_mismatches(h, st, live)
-            if len(self._restart) > 50000:
-                self._restart.clear()
-            self._restart[skey] = restart
-        else:
-            self.r.count("restart_comparisons_shared_by_equal_server_state")
+            if len(_RESTART) > 100000:
+                _RESTART.clear()
+            _RESTART[skey] = restart
+        self.r.count("restart_comparisons")
         out.update(restart)
+        # (c) what the server announces must not depend on memoised values: recompute after discarding every cache
+        # (last use of this history's live object; children are replayed from scratch)
+        st.run.kconfig._invalidate_all()
+        recomputed = server.full_state(st.run.kconfig)
+        for c in CHANNELS:
+            for k2 in sorted(set(live[c]) | set(recomputed[c])):
+                a, b2 = live[c].get(k2, _MISSING), recomputed[c].get(k2, _MISSING)
+                if a is _MISSING or b2 is _MISSING or not jeq(a, b2):
+                    out[("stale_server_state", c, k2, "memoised_differs_from_recomputed")] = (
+                        f"{c}[{k2}]: server computes {json.dumps(a) if a is not _MISSING else '<absent>'} from memoised values, "
+                        f"{json.dumps(b2) if b2 is not _MISSING else '<absent>'} after discarding them"
+                    )
         if len(self._mm) > 64:
             self._mm.clear()
         self._mm[h] = out
@@ -653,6 +678,19 @@ class Explorer:
         for i, why in st.bad:
             if i == len(h) or len(st.run.lines) != len(h) + 1:
                 r.violation({"kind": "reply_shape", "op": opc, "why": why.split(" (")[0]}, f"{ctx}: stdout line {i}: {why}: {st.run.lines[i][:120]!r}", self.case(h))
+        if h and len(st.run.lines) == len(h) + 1:
+            rep, _ = server.parse_reply(st.run.lines[-1])
+            if rep is not None and "error" not in rep:
+                # "The key is always present in the response, but may be empty": a reply to an accepted request carries
+                # every channel of its protocol version
+                want = ("values", "ranges") if self.cv == 1 else ("values", "ranges", "visible") if self.cv == 2 else CHANNELS
+                miss = [c for c in want if c not in rep]
+                if miss or rep.get("version") != self.cv:
+                    r.violation(
+                        {"kind": "reply_channels", "op": opc, "protocol": self.cv, "missing": "+".join(miss) or "version"},
+                        f"{ctx}: reply lacks {miss or 'the request version'}: {st.run.lines[-1][:160]}",
+                        self.case(h),
+                    )
         now = self.mismatches(h, st)
         live_vis = server.full_state(st.run.kconfig, 2)["visible"]
         before = self.mismatches(h[:-1]) if h else {}
@@ -660,11 +698,17 @@ class Explorer:
             if key in before:
                 continue
             kind, chan, k, how = key
-            sig = {"kind": kind, "channel": chan, "how": how, "op": opc, "key_kind": self.kinds.get(k, "-")}
+            sig = {"kind": kind, "channel": chan, "how": how, "key_kind": self.kinds.get(k, "-")}
             if k in self.kinds:
                 sig["key_visible"] = bool(live_vis.get(k, False))
             if kind == "client_out_of_sync":
                 sig["protocol"] = self.ev
+                if how != "stale_key":
+                    # a key that cannot be retracted is stale whatever request removed it; for lost or wrong
+                    # differences the request class whose reply lost them is part of the class
+                    sig["op"] = opc
+            elif kind != "restart_differs":
+                sig["op"] = opc
             r.violation(sig, f"{ctx}: {text}", self.case(h))
         if h:
             rep, _ = server.parse_reply(st.run.lines[-1]) if len(st.run.lines) == len(h) + 1 else (None, None)
